@@ -242,6 +242,11 @@ func (st *State) dynamicCall(fr *Frame, in ssa.CallInstruction, c *ssa.CallCommo
 	if key := dynCallKey(c); key != "" {
 		desc = key
 		if ct, ok := st.e.specs.Contracts[key]; ok {
+			if ct.Options["runner"] == "transaction" {
+				// a function-valued parameter that runs its argument in a transaction of its own
+				st.txRun(fr, in, nil, key, args, k)
+				return
+			}
 			st.applyContract(fr, in, ct, nil, args, c.Signature().Results(), k)
 			return
 		}
@@ -405,7 +410,18 @@ func (st *State) applyContract(fr *Frame, in ssa.CallInstruction, ct *Contract, 
 			st.e.note(u.name, "assumption", fmt.Sprintf("precondition %s.%s (props %v) is outside this unit's properties at %s: not checked; the callee's postconditions are used only under it", ct.Func, label, props, site))
 			continue
 		}
-		st.e.addObligation(st, u, "requires", fmt.Sprintf("%s.%s", ct.Func, label), site, g, mergeProps(props, u.c.Props), r.Src, false)
+		oprops := mergeProps(props, u.c.Props)
+		if len(r.Props) > 0 {
+			// explicitly tagged: the obligation belongs to those properties only (the other properties of this unit
+			// take the clause as an assumption, which is checked under its own properties)
+			oprops = nil
+			for _, p := range r.Props {
+				if contains(u.c.Props, p) {
+					oprops = append(oprops, p)
+				}
+			}
+		}
+		st.e.addObligation(st, u, "requires", fmt.Sprintf("%s.%s", ct.Func, label), site, g, oprops, r.Src, false)
 		st.assume(g)
 	}
 	if ct.HasMods && len(ct.Modifies) > 0 && ct.Options["unreachable"] == "locals" {
